@@ -113,6 +113,21 @@ H['dropin'] = dict(
     },
 )
 
+# Attempted, NOT part of any claim (property id C12x is not in MANIFEST.json): Config2::compile with symbolic post_action_delay /
+# prekill_hook_timeout strings. The error path (std::stoi throwing out of compileRuleset) unwinds through the destructors of the
+# half-built configuration and did not finish symbolic execution in 10 minutes. Run with: ./check C12x --only cfgc
+H['cfgc'] = dict(
+    props=['C12x'], dir='harness/cfgc',
+    oomd=ENGINE_OOMD + ['config/ConfigCompiler.cpp'], cxx=['h_cfgc.cpp', 'env/fs_unreachable.cpp'] + ENGINE_ENV, c=['main_cfgc.c'],
+    defs={'VSTL_STR_CAP': 8, 'VSTL_VEC_MAX': 4, 'VSTL_MAP_MAX': 8, 'VF_ACT_ADV_MAX_S': 0, 'VF_RET_MAX': 1},
+    unwind=11, timeout=1200,
+    functions=['Oomd::Config2::compile', 'compileRuleset', 'compileDetectorGroup', 'compilePlugin'],
+    variants={
+        'quick': [dict(name='delay_l%d' % l, defs={'H_LEN': l, 'H_FIELD': 0}, reach_optional=True) for l in (0, 1, 2)] + [dict(name='hooktimeout_l2', defs={'H_LEN': 2, 'H_FIELD': 1}, reach_optional=True)],
+        'thorough': [dict(name='delay_l3', defs={'H_LEN': 3, 'H_FIELD': 0}, reach_optional=True, timeout=3000), dict(name='hooktimeout_l3', defs={'H_LEN': 3, 'H_FIELD': 1}, reach_optional=True, timeout=3000)],
+    },
+)
+
 NOREG = ['-include', 'noreg.h']
 DET_NAMES = {1: 'pressure_above', 2: 'pressure_rising_beyond', 3: 'memory_above', 4: 'memory_reclaim', 5: 'swap_free', 6: 'exists', 7: 'nr_dying_descendants'}
 _DT = {1: 1, 2: 1, 3: 3, 4: 3, 5: 1, 6: 1, 7: 1}   # ticks per detector in the quick tier (float-heavy pressure detectors: 1)
